@@ -161,6 +161,10 @@ pub open spec fn kept<R: AsyncRead>(r: R) -> bool {
     r.end_rid() == r.rid() && r.end_aux() == r.aux() && r.hist().is_prefix_of(r.end_hist())
 }
 
+// Frame through nested handles.  For a handle `&mut T` it records the referent's own frame values and prophecies
+// (deep / end_deep / end_accepted and, recursively, its frames); Nil for objects that are not handles.  A generic
+// callee that was lent `&mut W` can then promise, through w_kept, that W's own prophecies are what they were.
+pub enum Fr { Nil, Node { deep: Seq<u8>, end_deep: Seq<u8>, end_acc: nat, fr: Box<Fr>, end_fr: Box<Fr> } }
 pub trait AsyncWrite: Sized {
     spec fn cur(&self) -> Seq<u8>;
     #[verifier::prophetic]
@@ -175,14 +179,18 @@ pub trait AsyncWrite: Sized {
     spec fn deep(&self) -> Seq<u8>;
     #[verifier::prophetic]
     spec fn end_deep(&self) -> Seq<u8>;
+    #[verifier::prophetic]
+    spec fn fr(&self) -> Fr;
+    #[verifier::prophetic]
+    spec fn end_fr(&self) -> Fr;
     proof fn resolved(&self)
         requires has_resolved(*self)
-        ensures self.cur() == self.end(), self.accepted() == self.end_accepted(), self.deep() == self.end_deep();
+        ensures self.cur() == self.end(), self.accepted() == self.end_accepted(), self.deep() == self.end_deep(), self.fr() == self.end_fr();
     fn write_all(&mut self, buf: &[u8]) -> (r: Result<(), std::io::Error>)
         ensures
             (*final(self)).end() == (*old(self)).end(),
             (*final(self)).end_accepted() == (*old(self)).end_accepted(),
-            (*final(self)).deep() == (*old(self)).deep(), (*final(self)).end_deep() == (*old(self)).end_deep(),
+            (*final(self)).deep() == (*old(self)).deep(), (*final(self)).end_deep() == (*old(self)).end_deep(), (*final(self)).fr() == (*old(self)).fr(), (*final(self)).end_fr() == (*old(self)).end_fr(),
             (*final(self)).accepted() - (*old(self)).accepted() == (*final(self)).cur().len() - (*old(self)).cur().len(),
             match r {
                 Ok(()) => (*final(self)).cur() == (*old(self)).cur() + buf@,
@@ -194,7 +202,7 @@ pub trait AsyncWrite: Sized {
         ensures
             (*final(self)).end() == (*old(self)).end(),
             (*final(self)).end_accepted() == (*old(self)).end_accepted(),
-            (*final(self)).deep() == (*old(self)).deep(), (*final(self)).end_deep() == (*old(self)).end_deep(),
+            (*final(self)).deep() == (*old(self)).deep(), (*final(self)).end_deep() == (*old(self)).end_deep(), (*final(self)).fr() == (*old(self)).fr(), (*final(self)).end_fr() == (*old(self)).end_fr(),
             (*final(self)).accepted() - (*old(self)).accepted() == (*final(self)).cur().len() - (*old(self)).cur().len(),
             match r {
                 Ok(n) => n <= buf@.len() && (*final(self)).cur() == (*old(self)).cur() + buf@.subrange(0, n as int),
@@ -203,11 +211,11 @@ pub trait AsyncWrite: Sized {
     fn flush(&mut self) -> (r: Result<(), std::io::Error>)
         ensures (*final(self)).end() == (*old(self)).end(), (*final(self)).cur() == (*old(self)).cur(),
             (*final(self)).end_accepted() == (*old(self)).end_accepted(), (*final(self)).accepted() == (*old(self)).accepted(),
-            (*final(self)).deep() == (*old(self)).deep(), (*final(self)).end_deep() == (*old(self)).end_deep();
+            (*final(self)).deep() == (*old(self)).deep(), (*final(self)).end_deep() == (*old(self)).end_deep(), (*final(self)).fr() == (*old(self)).fr(), (*final(self)).end_fr() == (*old(self)).end_fr();
     fn close(&mut self) -> (r: Result<(), std::io::Error>)
         ensures (*final(self)).end() == (*old(self)).end(), (*final(self)).cur() == (*old(self)).cur(),
             (*final(self)).end_accepted() == (*old(self)).end_accepted(), (*final(self)).accepted() == (*old(self)).accepted(),
-            (*final(self)).deep() == (*old(self)).deep(), (*final(self)).end_deep() == (*old(self)).end_deep();
+            (*final(self)).deep() == (*old(self)).deep(), (*final(self)).end_deep() == (*old(self)).end_deep(), (*final(self)).fr() == (*old(self)).fr(), (*final(self)).end_fr() == (*old(self)).end_fr();
 }
 impl<T: AsyncWrite> AsyncWrite for &mut T {
     open spec fn cur(&self) -> Seq<u8> { (**self).cur() }
@@ -220,6 +228,15 @@ impl<T: AsyncWrite> AsyncWrite for &mut T {
     open spec fn deep(&self) -> Seq<u8> { (**self).end() }
     #[verifier::prophetic]
     open spec fn end_deep(&self) -> Seq<u8> { mut_ref_future(*self).end() }
+    #[verifier::prophetic]
+    open spec fn fr(&self) -> Fr {
+        Fr::Node { deep: (**self).deep(), end_deep: (**self).end_deep(), end_acc: (**self).end_accepted(), fr: Box::new((**self).fr()), end_fr: Box::new((**self).end_fr()) }
+    }
+    #[verifier::prophetic]
+    open spec fn end_fr(&self) -> Fr {
+        Fr::Node { deep: mut_ref_future(*self).deep(), end_deep: mut_ref_future(*self).end_deep(), end_acc: mut_ref_future(*self).end_accepted(),
+                   fr: Box::new(mut_ref_future(*self).fr()), end_fr: Box::new(mut_ref_future(*self).end_fr()) }
+    }
     proof fn resolved(&self) {}
     fn write_all(&mut self, buf: &[u8]) -> (r: Result<(), std::io::Error>) { (**self).write_all(buf) }
     fn write(&mut self, buf: &[u8]) -> (r: Result<usize, std::io::Error>) { (**self).write(buf) }
@@ -228,13 +245,13 @@ impl<T: AsyncWrite> AsyncWrite for &mut T {
 }
 pub broadcast proof fn writer_resolved<W: AsyncWrite>(w: W)
     requires #[trigger] has_resolved(w)
-    ensures w.cur() == w.end(), w.accepted() == w.end_accepted(), w.deep() == w.end_deep()
+    ensures w.cur() == w.end(), w.accepted() == w.end_accepted(), w.deep() == w.end_deep(), w.fr() == w.end_fr()
 { w.resolved(); }
 // a writer handle is given up as the same object: only appended to, its counter in step with what
 // was appended, a wrapped reference not re-seated
 #[verifier::prophetic]
 pub open spec fn w_kept<W: AsyncWrite>(w: W) -> bool {
-    w.cur().is_prefix_of(w.end()) && w.end_deep() == w.deep()
+    w.cur().is_prefix_of(w.end()) && w.end_deep() == w.deep() && w.end_fr() == w.fr()
     && w.end_accepted() - w.accepted() == w.end().len() - w.cur().len()
 }
 
